@@ -24,6 +24,7 @@ typedef std::vector<uint8_t> Bytes;
 struct V4 {
     typedef IPv4Address A;
     static const unsigned N = 4;
+    static const int K = 0;
     static const char* name() { return "IPv4"; }
     static A make(const Bytes& b) {
         uint32_t be;  // IPv4Address(uint32_t) takes the value in network byte order as stored in memory
@@ -42,6 +43,7 @@ struct V4 {
 struct V6 {
     typedef IPv6Address A;
     static const unsigned N = 16;
+    static const int K = 1;
     static const char* name() { return "IPv6"; }
     static A make(const Bytes& b) { return A(b.data()); }
     static Bytes bytes(const A& a) { return Bytes(a.begin(), a.end()); }
@@ -51,7 +53,28 @@ struct V6 {
 struct HW {
     typedef HWAddress<6> A;
     static const unsigned N = 6;
+    static const int K = 2;
     static const char* name() { return "HW"; }
+    static A make(const Bytes& b) { return A(b.data()); }
+    static Bytes bytes(const A& a) { return Bytes(a.begin(), a.end()); }
+    static A parse(const std::string& s) { return A(s); }
+    static AddressRange<A> slash(const A& a, int p) { return a / p; }
+};
+struct HW8 {  // SLL::address_type
+    typedef HWAddress<8> A;
+    static const unsigned N = 8;
+    static const int K = 2;
+    static const char* name() { return "HW8"; }
+    static A make(const Bytes& b) { return A(b.data()); }
+    static Bytes bytes(const A& a) { return Bytes(a.begin(), a.end()); }
+    static A parse(const std::string& s) { return A(s); }
+    static AddressRange<A> slash(const A& a, int p) { return a / p; }
+};
+struct HW16 {  // BootP::chaddr_type
+    typedef HWAddress<16> A;
+    static const unsigned N = 16;
+    static const int K = 2;
+    static const char* name() { return "HW16"; }
     static A make(const Bytes& b) { return A(b.data()); }
     static Bytes bytes(const A& a) { return Bytes(a.begin(), a.end()); }
     static A parse(const std::string& s) { return A(s); }
@@ -256,14 +279,14 @@ static Verdict ref_parse_v6(const std::string& s, uint8_t out[16]) {
 // hardware addresses: documented form "XX:XX:XX:XX:XX:XX"; short forms (1..6 groups) are zero padded.
 // must-accept: 1..6 groups of exactly two hex digits. must-reject: a character that is neither hex nor ':'
 // or a run of >= 3 hex digits, located before the end of the sixth group. Everything else: no claim.
-static Verdict ref_parse_hw(const std::string& s, uint8_t out[6]) {
+static Verdict ref_parse_hw(const std::string& s, uint8_t* out, unsigned n = 6) {
     // must-accept shape
     {
         size_t i = 0, g = 0;
         bool ok = !s.empty();
-        memset(out, 0, 6);
+        memset(out, 0, n);
         while (ok && i < s.size()) {
-            if (g == 6) { ok = false; break; }
+            if (g == n) { ok = false; break; }
             if (i + 1 >= s.size() || hexval(s[i]) < 0 || hexval(s[i + 1]) < 0) { ok = false; break; }
             out[g++] = (uint8_t)(hexval(s[i]) * 16 + hexval(s[i + 1]));
             i += 2;
@@ -276,12 +299,12 @@ static Verdict ref_parse_hw(const std::string& s, uint8_t out[6]) {
     }
     // must-reject shape
     size_t groups_done = 0, run = 0;
-    for (size_t i = 0; i < s.size() && groups_done < 6; ++i) {
+    for (size_t i = 0; i < s.size() && groups_done < n; ++i) {
         char c = s[i];
         if (c == ':') { groups_done++; run = 0; continue; }
         if (hexval(c) < 0) return REJECT;
         if (++run >= 3) return REJECT;
-        if (run == 2 && groups_done == 5) break;  // sixth group complete: the rest is outside the claim
+        if (run == 2 && groups_done == n - 1) break;  // sixth group complete: the rest is outside the claim
     }
     return UNSPEC;
 }
@@ -387,13 +410,13 @@ static void text_and_order(Src& s, Ctx& ctx) {
     // reference agrees with the produced text
     {
         uint8_t out[16] = {0};
-        Verdict v = F::N == 4 ? ref_parse_v4(ta, out) : (F::N == 16 ? ref_parse_v6(ta, out) : ref_parse_hw(ta, out));
+        Verdict v = F::K == 0 ? ref_parse_v4(ta, out) : (F::K == 1 ? ref_parse_v6(ta, out) : ref_parse_hw(ta, out, F::N));
         VCHECK(ctx, v == ACCEPT && memcmp(out, ba.data(), F::N) == 0, tag + ":text-form",
                "to_string gave '" << ta << "' for bytes " << hex(ba) << "; reference parser verdict " << (int)v << " value " << hex(out, F::N));
-        if (F::N == 4) VCHECK(ctx, ta == v4_text(ba.data()), tag + ":text-form", "dotted quad expected, got '" << ta << "'");
+        if (F::K == 0) VCHECK(ctx, ta == v4_text(ba.data()), tag + ":text-form", "dotted quad expected, got '" << ta << "'");
     }
     // alternative text forms must parse to the same address
-    if (F::N == 16) {
+    if (F::K == 1) {
         std::string alt = v6_text_variant(s, ba);
         uint8_t out[16];
         Verdict v = ref_parse_v6(alt, out);
@@ -621,17 +644,17 @@ static void string_accept(Src& s, Ctx& ctx) {
     std::string tag = std::string("C16:") + F::name();
     Bytes ba = gen_addr(s, F::N);
     std::string base;
-    if (F::N == 4) base = v4_text(ba.data());
-    else if (F::N == 16) base = v6_text_variant(s, ba);
+    if (F::K == 0) base = v4_text(ba.data());
+    else if (F::K == 1) base = v6_text_variant(s, ba);
     else {
         base = F::make(ba).to_string();
-        if (s.chance(30)) { unsigned g = 1 + (unsigned)s.range(0, 5); base = base.substr(0, g * 3 - 1); }  // short form
+        if (s.chance(30)) { unsigned g = 1 + (unsigned)s.range(0, F::N - 1); base = base.substr(0, g * 3 - 1); }  // short form
         if (s.boolean()) for (char& c : base) c = (char)toupper(c);
     }
     std::string t = mutate_text(s, base);
     for (char& c : t) if (c == 0) c = '0';
     uint8_t out[16] = {0};
-    Verdict v = F::N == 4 ? ref_parse_v4(t, out) : (F::N == 16 ? ref_parse_v6(t, out) : ref_parse_hw(t, out));
+    Verdict v = F::K == 0 ? ref_parse_v4(t, out) : (F::K == 1 ? ref_parse_v6(t, out) : ref_parse_hw(t, out, F::N));
     ctx.hash(tag + ":string"); ctx.hash(t);
     bool accepted = false;
     Bytes got;
@@ -710,7 +733,13 @@ void prop(Src& s, Ctx& ctx) {
     unsigned fam = (unsigned)s.range(0, 2);
     if (fam == 0) dispatch<V4>(kind, s, ctx);
     else if (fam == 1) dispatch<V6>(kind, s, ctx);
-    else dispatch<HW>(kind, s, ctx);
+    else {
+        // hardware addresses of other widths libtins itself uses (no further choice byte: taken from the selector)
+        unsigned variant = (sel / 15) % 4;
+        if (variant == 2) dispatch<HW8>(kind, s, ctx);
+        else if (variant == 3) dispatch<HW16>(kind, s, ctx);
+        else dispatch<HW>(kind, s, ctx);
+    }
 }
 
 // exhaustive block: family x prefix length x 6 address classes
